@@ -52,6 +52,8 @@ import Reamber.Props.C06
 import Reamber.Props.C01
 import Reamber.Lemmas.PermInvSM
 import Reamber.Lemmas.PermInvBMS
+import Reamber.Model.BpmList
+import Reamber.Props.C20
 
 namespace Reamber.PermInv
 
@@ -852,5 +854,592 @@ theorem write_qua_perm (c c' : Qua.Chart) (h : QuaChartPerm c c') (hm : Qua.Meta
   exact ⟨hi, hh.map _, hl.map _, hb.map _, hs.map _⟩
 
 end QuaWriter
+
+
+/-! ## rate: the well-formedness domain is itself invariant; map sets -/
+
+section RateMore
+open Reamber.Rate
+
+theorem frame_wf_perm {f f' : Frame} (h : FramePerm f f') : f.wf = f'.wf := by
+  obtain ⟨hc, hr⟩ := h
+  simp only [Frame.wf, hc, hr.all_eq]
+
+theorem frame_col_perm {f f' : Frame} (h : FramePerm f f') (c : String) : (f.col c).Perm (f'.col c) := by
+  obtain ⟨hc, hr⟩ := h
+  simp only [Frame.col, hc]
+  exact hr.map _
+
+theorem frame_numericCols_perm {f f' : Frame} (h : FramePerm f f') : f.numericCols = f'.numericCols := by
+  simp only [Frame.numericCols]
+  congr 1
+  funext c
+  exact (frame_col_perm h c).all_eq
+
+theorem lists_all_perm {ls ls' : List (String × Frame)} (h : ListsPerm ls ls') (p : Frame → Bool)
+    (hp : ∀ f f', FramePerm f f' → p f = p f') : (ls.map (·.2)).all p = (ls'.map (·.2)).all p := by
+  unfold ListsPerm at h
+  induction h with
+  | nil => rfl
+  | cons hab _ ih => simp only [List.map_cons, List.all_cons, hp _ _ hab.2, ih]
+
+theorem lists_hasCol_perm {ls ls' : List (String × Frame)} (h : ListsPerm ls ls') (c : String) :
+    hasCol (ls.map (·.2)) c = hasCol (ls'.map (·.2)) c := by
+  unfold ListsPerm at h
+  unfold hasCol
+  induction h with
+  | nil => rfl
+  | cons hab _ ih => simp only [List.map_cons, List.any_cons, hab.2.1, ih]
+
+theorem listsOk_perm {ls ls' : List (String × Frame)} (h : ListsPerm ls ls') :
+    listsOk (ls.map (·.2)) = listsOk (ls'.map (·.2)) := by
+  simp only [listsOk, lists_all_perm h _ (fun _ _ => frame_wf_perm), lists_all_perm h _ (fun _ _ => frame_numericCols_perm),
+    lists_hasCol_perm h]
+
+theorem samplesOk_perm {f f' : Frame} (h : FramePerm f f') : samplesOk f = samplesOk f' := by
+  simp only [samplesOk, frame_wf_perm h, (frame_col_perm h "offset").all_eq, h.1]
+
+/-- C13's well-formedness domain does not depend on the row order of any list -/
+theorem chartOk_perm (g : Game) {c c' : Chart} (h : ChartPerm c c') : chartOk g c = chartOk g c' := by
+  obtain ⟨hl, hs, hp, _⟩ := h
+  simp only [chartOk, listsOk_perm hl, hp]
+  congr 1
+  split
+  · cases hcs : c.samples <;> cases hcs' : c'.samples <;> simp_all [OptFramePerm]
+    rename_i a b
+    cases c'.preview <;> simp [samplesOk_perm hs]
+  · rfl
+
+/-- **rate**, with the well-formedness of ONE of the two charts only -/
+theorem rate_perm_of_left (g : Game) (r : Rat) (c c' : Chart) (hok : chartOk g c = true) (hr : r ≠ 0)
+    (h : ChartPerm c c') :
+    ∃ o o', rateChart g r c = .ok o ∧ rateChart g r c' = .ok o' ∧ ChartPerm o o' :=
+  rate_perm g r c c' hok (chartOk_perm g h ▸ hok) hr h
+
+/-- the same map set up to the row order of every list of every chart -/
+def SetPerm (s s' : MapSet) : Prop :=
+  List.Forall₂ ChartPerm s.maps s'.maps ∧ s.offset = s'.offset ∧ s.sampleStart = s'.sampleStart ∧
+  s.sampleLength = s'.sampleLength ∧ s.extra = s'.extra
+
+theorem maps_all_chartOk_perm (g : Game) {ms ms' : List Chart} (h : List.Forall₂ ChartPerm ms ms') :
+    ms.all (chartOk g) = ms'.all (chartOk g) := by
+  induction h with
+  | nil => rfl
+  | cons hab _ ih => simp only [List.all_cons, chartOk_perm g hab, ih]
+
+theorem setOk_perm (k : SetKind) (g : Game) {s s' : MapSet} (h : SetPerm s s') : setOk k g s = setOk k g s' := by
+  obtain ⟨hm, _, hs, hl, _⟩ := h
+  simp only [setOk, maps_all_chartOk_perm g hm, hs, hl]
+
+theorem maps_scale_perm (g : Game) (r : Rat) {ms ms' : List Chart} (h : List.Forall₂ ChartPerm ms ms') :
+    List.Forall₂ ChartPerm (ms.map (scaleChart g r)) (ms'.map (scaleChart g r)) := by
+  induction h with
+  | nil => exact List.Forall₂.nil
+  | cons hab _ ih => exact List.Forall₂.cons (scaleChart_perm g r hab) ih
+
+theorem scaleSet_perm (k : SetKind) (g : Game) (r : Rat) {s s' : MapSet} (h : SetPerm s s') :
+    SetPerm (scaleSet k g r s) (scaleSet k g r s') := by
+  obtain ⟨hm, ho, hs, hl, he⟩ := h
+  refine ⟨?_, ?_, ?_, ?_, he⟩
+  · simp only [scaleSet]
+    exact maps_scale_perm g r hm
+  · simp only [scaleSet, ho]
+  · simp only [scaleSet, hs]
+  · simp only [scaleSet, hl]
+
+/-- **MapSet.rate**: the same map set in two row orders (every list of every chart) gives the same map set up to
+row order; the scalars (`offset`, `sample_start`, `sample_length`) are equal.  Well-formedness of one side only. -/
+theorem rate_set_perm (k : SetKind) (g : Game) (r : Rat) (s s' : MapSet) (hok : setOk k g s = true) (hr : r ≠ 0)
+    (h : SetPerm s s') :
+    ∃ o o', rateSet k g r s = .ok o ∧ rateSet k g r s' = .ok o' ∧ SetPerm o o' :=
+  ⟨_, _, rateSet_scales k g r s hok hr, rateSet_scales k g r s' (setOk_perm k g h ▸ hok) hr, scaleSet_perm k g r h⟩
+
+
+end RateMore
+
+/-! ## list-level queries: current_bpm, time_diff, ave_bpm, describe -/
+
+section ListOps
+open Reamber.Analysis Reamber.BpmListOps
+open Reamber.Timing (isort insertBy)
+
+theorem map_insertBy_key {α : Type} (key : α → Rat) (a : α) (s : List α) :
+    (insertBy (fun x y => decide (key x ≤ key y)) a s).map key = insertBy (fun x y => decide (x ≤ y)) (key a) (s.map key) := by
+  induction s with
+  | nil => rfl
+  | cons b t ih =>
+    simp only [insertBy, List.map_cons]
+    by_cases h : key a ≤ key b
+    · simp [h]
+    · simp [h, ih]
+
+theorem map_isort_key {α : Type} (key : α → Rat) (l : List α) :
+    (isort (fun x y => decide (key x ≤ key y)) l).map key = isort (fun x y => decide (x ≤ y)) (l.map key) := by
+  induction l with
+  | nil => rfl
+  | cons a t ih =>
+    simp only [isort, List.foldr_cons, List.map_cons] at ih ⊢
+    rw [map_insertBy_key, ih]
+
+/-- the sorted offset column is a function of the multiset of offsets — no hypothesis on ties -/
+theorem sortedTimes_perm {bpms bpms' : List Tp} (hp : bpms.Perm bpms') :
+    (sortTp bpms).map (·.time) = (sortTp bpms').map (·.time) := by
+  have h1 := map_isort_key (fun p : Tp => p.time) bpms
+  have h2 := map_isort_key (fun p : Tp => p.time) bpms'
+  simp only [sortTp]
+  rw [h1, h2]
+  exact isort_key_eq_of_perm (fun x : Rat => x) (fun a _ b _ h => h) (hp.map _)
+
+/-- **TimedList.time_diff**: any two row orders of the same list give the same gaps; tied rows need not be equal -/
+theorem time_diff_perm {bpms bpms' : List Tp} (last : Rat) (hp : bpms.Perm bpms') :
+    timeDiff bpms last = timeDiff bpms' last := by
+  simp only [timeDiff, sortedTimes_perm hp]
+
+/-- **BpmList.current_bpm** (`sort=True`, the default): the same tempo point for every row order -/
+theorem current_bpm_perm {bpms bpms' : List Tp} (t δ : Rat) (ht : TiesEqual (fun p : Tp => p.time) bpms)
+    (hp : bpms.Perm bpms') : currentBpm bpms true t δ = currentBpm bpms' true t δ := by
+  simp only [currentBpm, if_true, sortTp_eq_of_perm ht hp]
+
+/-- the tie hypothesis is necessary for `current_bpm` … -/
+theorem current_bpm_tie_counterexample :
+    ([⟨0, 100⟩, ⟨0, 200⟩] : List Tp).Perm [⟨0, 200⟩, ⟨0, 100⟩] ∧
+    currentBpm [⟨0, 100⟩, ⟨0, 200⟩] true 500 (1/10) ≠ currentBpm [⟨0, 200⟩, ⟨0, 100⟩] true 500 (1/10) := by
+  refine ⟨List.Perm.swap _ _ _, ?_⟩
+  decide +kernel
+
+/-- … and `sort=False` ("IT MUST BE SORTED!" in the docstring) takes the row order as it is -/
+theorem current_bpm_nosort_counterexample :
+    currentBpm [⟨0, 100⟩, ⟨1000, 200⟩] false 500 (1/10) = some ⟨0, 100⟩ ∧
+    currentBpm [⟨1000, 200⟩, ⟨0, 100⟩] false 500 (1/10) = some ⟨1000, 200⟩ ∧
+    currentBpm [⟨1000, 200⟩, ⟨0, 100⟩] true 500 (1/10) = some ⟨0, 100⟩ := by decide +kernel
+
+/-- **BpmList.ave_bpm depends on the row order** (observation; the routine is not named in the property's statement):
+`np.diff(self.offset, append=last)` and `self.bpm` are both taken in row order without a sort.  100 bpm for 1000 ms
+then 200 bpm for 1000 ms is 150 on average; the same two rows reversed give 0. -/
+theorem ave_bpm_order_counterexample :
+    aveBpm [⟨0, 100⟩, ⟨1000, 200⟩] 2000 = 150 ∧ aveBpm [⟨1000, 200⟩, ⟨0, 100⟩] 2000 = 0 := by decide +kernel
+
+/-- `ave_bpm` of a list that was sorted first is a function of the multiset of rows -/
+theorem ave_bpm_sorted_perm {bpms bpms' : List Tp} (last : Rat) (ht : TiesEqual (fun p : Tp => p.time) bpms)
+    (hp : bpms.Perm bpms') : aveBpm (sortTp bpms) last = aveBpm (sortTp bpms') last := by
+  rw [sortTp_eq_of_perm ht hp]
+
+
+theorem sumRat_perm {l l' : List Rat} (hp : l.Perm l') : sumRat l = sumRat l' := by
+  induction hp with
+  | nil => rfl
+  | cons a _ ih => simp only [sumRat, ih]
+  | swap a b l => simp only [sumRat]; exact Rat.add_left_comm _ _ _
+  | trans _ _ ih1 ih2 => exact ih1.trans ih2
+
+theorem reduceOpt_perm (pick : Rat → Rat → Rat) (hc : ∀ a b, pick a b = pick b a)
+    (ha : ∀ a b c, pick (pick a b) c = pick (pick a c) b) {l l' : List Rat} (hp : l.Perm l') :
+    reduceOpt pick l = reduceOpt pick l' := by
+  unfold reduceOpt
+  apply List.Perm.foldl_eq' hp
+  intro x _ y _ z
+  cases z with
+  | none => simp only [hc x y]
+  | some w => simp only [ha w x y]
+
+theorem minPick_comm (a b : Rat) : minPick a b = minPick b a := by
+  unfold minPick; split <;> split <;> grind
+
+theorem minPick_rcomm (a b c : Rat) : minPick (minPick a b) c = minPick (minPick a c) b := by
+  unfold minPick; repeat' split <;> grind
+
+theorem maxPick_comm (a b : Rat) : maxPick a b = maxPick b a := by
+  unfold maxPick; split <;> split <;> grind
+
+theorem maxPick_rcomm (a b c : Rat) : maxPick (maxPick a b) c = maxPick (maxPick a c) b := by
+  unfold maxPick; repeat' split <;> grind
+
+/-- **describe()** of a numeric column: every statistic is the same for every row order (no hypothesis) -/
+theorem describe_perm {col col' : List Rat} (hp : col.Perm col') : describeCol col = describeCol col' := by
+  have hs : sortRat col = sortRat col' := isort_key_eq_of_perm (fun x : Rat => x) (fun a _ b _ h => h) hp
+  simp only [describeCol, hp.length_eq, sumRat_perm hp, sumRat_perm (hp.map _), hs,
+    reduceOpt_perm minPick minPick_comm minPick_rcomm hp, reduceOpt_perm maxPick maxPick_comm maxPick_rcomm hp]
+
+example : describeCol [0, 1000, 500, 1500] = ⟨4, 750, 1250000 / 3, 0, 375, 750, 1125, 1500⟩ := by decide +kernel
+
+
+end ListOps
+
+/-! ## Pattern / Pattern.from_note_lists / group on permuted note lists -/
+
+section PatternPerm
+open Reamber.Pattern
+
+/-- the same note lists (same classes, in the same order) with the rows of every list permuted -/
+def NoteListsPerm (nls nls' : List NoteList) : Prop :=
+  List.Forall₂ (fun a b : NoteList => a.ty = b.ty ∧ a.items.Perm b.items) nls nls'
+
+theorem flatMap_heads_perm {nls nls' : List NoteList} (h : NoteListsPerm nls nls') :
+    (nls.flatMap (fun nl => nl.items.map (fun it => (⟨it.1, it.2.1, nl.ty⟩ : Pattern.Row)))).Perm
+      (nls'.flatMap (fun nl => nl.items.map (fun it => (⟨it.1, it.2.1, nl.ty⟩ : Pattern.Row)))) := by
+  unfold NoteListsPerm at h
+  induction h with
+  | nil => exact List.Perm.refl _
+  | cons hab _ ih =>
+    simp only [List.flatMap_cons, hab.1]
+    exact List.Perm.append (hab.2.map _) ih
+
+theorem flatMap_tails_perm {nls nls' : List NoteList} (h : NoteListsPerm nls nls') :
+    ((nls.filter (fun nl => isSub nl.ty .hold)).flatMap
+        (fun nl => nl.items.map (fun it => (⟨it.1, it.2.1 + it.2.2, .holdTail⟩ : Pattern.Row)))).Perm
+      ((nls'.filter (fun nl => isSub nl.ty .hold)).flatMap
+        (fun nl => nl.items.map (fun it => (⟨it.1, it.2.1 + it.2.2, .holdTail⟩ : Pattern.Row)))) := by
+  unfold NoteListsPerm at h
+  induction h with
+  | nil => exact List.Perm.refl _
+  | @cons a b _ _ hab _ ih =>
+    simp only [List.filter_cons, hab.1]
+    by_cases hs : isSub b.ty .hold = true
+    · simp only [hs, if_true, List.flatMap_cons]
+      exact List.Perm.append (hab.2.map _) ih
+    · simp only [hs]
+      exact ih
+
+theorem expectedRows_perm {nls nls' : List NoteList} (h : NoteListsPerm nls nls') (t : Bool) :
+    (expectedRows nls t).Perm (expectedRows nls' t) := by
+  unfold expectedRows
+  refine List.Perm.append (flatMap_heads_perm h) ?_
+  cases t
+  · exact List.Perm.refl _
+  · exact flatMap_tails_perm h
+
+/-- **Pattern(...)** on a permuted note frame: the frame built from ANY row order of the notes satisfies the
+specification stated for the original order — exactly these notes, ordered by offset.  (C20's grouping theorems
+quantify over every frame that satisfies it, so they hold for both.) -/
+theorem pattern_perm {rows rows' : List Pattern.Row} (hp : rows.Perm rows') : patternSpec rows (mkPattern rows') = true := by
+  have h := pattern_sorted_perm rows'
+  simp only [patternSpec, Bool.and_eq_true, List.isPerm_iff] at h ⊢
+  exact ⟨h.1.trans hp.symm, h.2⟩
+
+/-- **Pattern.from_note_lists** on note lists whose rows were permuted: the frame is the one specified for the
+original lists (every note, every requested hold tail, nothing else, sorted by offset) -/
+theorem from_note_lists_perm {nls nls' : List NoteList} (h : NoteListsPerm nls nls') (t : Bool) :
+    patternSpec (expectedRows nls t) (fromNoteLists nls' t) = true := by
+  have h' := from_note_lists_spec nls' t
+  simp only [patternSpec, Bool.and_eq_true, List.isPerm_iff] at h' ⊢
+  exact ⟨h'.1.trans (expectedRows_perm h t).symm, h'.2⟩
+
+/-- grouping the pattern of a permuted note frame partitions the ORIGINAL notes -/
+theorem group_partition_perm {rows rows' : List Pattern.Row} (hp : rows.Perm rows') (v : Rat) (h : Option Int) (aj : Bool)
+    (gs : List (List Pattern.Row)) (hg : group (mkPattern rows') v h aj = .ok gs) : gs.flatten.Perm rows := by
+  have h1 := group_partition (mkPattern rows') v h aj gs hg
+  simp only [partitionOk, List.isPerm_iff] at h1
+  have h2 := pattern_perm hp
+  simp only [patternSpec, Bool.and_eq_true, List.isPerm_iff] at h2
+  exact h1.trans h2.1
+
+
+end PatternPerm
+
+/-! ## list histories: every row order the library's list operations produce is a permutation -/
+
+section Histories
+open Reamber.Analysis
+open Reamber.Timing (isort insertBy)
+
+/-- **list histories**: the ways client code (and the library itself) arrives at a list with some row order -
+the shapes the correspondence check generates (`build_list` / `build_history` in harness/props/c15.py) -/
+inductive Hist (α : Type) where
+  /-- `Cls(items)` -/
+  | construct (rows : List α)
+  /-- `lst.append(item)` (sort=False) -/
+  | appendItem (h : Hist α) (x : α)
+  /-- `a.append(b)` (sort=False): concatenation -/
+  | concat (a b : Hist α)
+  /-- `lst.sorted(reverse)` -/
+  | sorted (h : Hist α) (reverse : Bool)
+  /-- `lst[::-1]` -/
+  | reverseSlice (h : Hist α)
+  /-- `lst[k:].append(lst[:k])` -/
+  | rotate (h : Hist α) (k : Nat)
+  /-- `lst[mask].append(lst[~mask])`; with `mask = offset > t`: `lst.after(t).append(lst.before(t, include_end=True))` -/
+  | maskReappend (h : Hist α) (mask : α → Bool)
+  /-- `deepcopy`, `m.x = lst; m.x`, `Cls(lst)`, `lst[:]`: the same rows in the same order -/
+  | handOn (h : Hist α)
+
+/-- the rows that were put into the list, in the order of a plain left-to-right construction -/
+def Hist.items {α} : Hist α → List α
+  | .construct rows => rows
+  | .appendItem h x => h.items ++ [x]
+  | .concat a b => a.items ++ b.items
+  | .sorted h _ => h.items
+  | .reverseSlice h => h.items
+  | .rotate h _ => h.items
+  | .maskReappend h _ => h.items
+  | .handOn h => h.items
+
+/-- the row order the history ends with (`key` = the offset column; `sorted` is the stable insertion sort, its
+reverse for `reverse=True`) -/
+def Hist.run {α} (key : α → Rat) : Hist α → List α
+  | .construct rows => rows
+  | .appendItem h x => h.run key ++ [x]
+  | .concat a b => a.run key ++ b.run key
+  | .sorted h rev =>
+      let s := isort (fun a b => decide (key a ≤ key b)) (h.run key)
+      if rev then s.reverse else s
+  | .reverseSlice h => (h.run key).reverse
+  | .rotate h k => (h.run key).drop k ++ (h.run key).take k
+  | .maskReappend h m => (h.run key).filter m ++ (h.run key).filter (fun a => !m a)
+  | .handOn h => h.run key
+
+theorem isortT_perm {α} (le : α → α → Bool) (l : List α) : (isort le l).Perm l := by
+  induction l with
+  | nil => exact List.Perm.refl _
+  | cons a t ih =>
+    have hins : ∀ (s : List α), (insertBy le a s).Perm (a :: s) := by
+      intro s
+      induction s with
+      | nil => exact List.Perm.refl _
+      | cons b u ihu =>
+        simp only [insertBy]
+        split
+        · exact List.Perm.refl _
+        · exact ((List.Perm.cons b ihu).trans (List.Perm.swap a b u))
+    simp only [isort, List.foldr_cons]
+    exact (hins _).trans (List.Perm.cons a ih)
+
+/-- **every history ends with a permutation of the rows that were put in** -/
+theorem hist_perm {α} (key : α → Rat) (h : Hist α) : (h.run key).Perm h.items := by
+  induction h with
+  | construct rows => exact List.Perm.refl _
+  | appendItem h x ih => exact List.Perm.append ih (List.Perm.refl _)
+  | concat a b iha ihb => exact List.Perm.append iha ihb
+  | sorted h rev ih =>
+    simp only [Hist.run, Hist.items]
+    split
+    · exact (List.reverse_perm _).trans ((isortT_perm _ _).trans ih)
+    · exact (isortT_perm _ _).trans ih
+  | reverseSlice h ih => exact (List.reverse_perm _).trans ih
+  | rotate h k ih =>
+    simp only [Hist.run, Hist.items]
+    exact (List.perm_append_comm.trans (List.take_append_drop k _ ▸ List.Perm.refl _)).trans ih
+  | maskReappend h m ih =>
+    simp only [Hist.run, Hist.items]
+    exact (List.filter_append_perm m _).trans ih
+  | handOn h ih => exact ih
+
+/-- dominant bpm over histories: whatever history the tempo list went through, the dominant bpm is that of the
+plainly constructed list of the same tempo points -/
+theorem dominant_bpm_hist (h : Hist Tp) (L : Rat) (ht : TiesEqual (fun p : Tp => p.time) h.items) :
+    dominantBpm (h.run (fun p => p.time)) L = dominantBpm h.items L :=
+  (dominant_bpm_perm L ht (hist_perm _ h).symm).symm
+
+
+/-- scroll speed over histories of the tempo list and of the SV list -/
+theorem scroll_speed_hist (hasSv : Bool) (hb : Hist Tp) (hv : Hist Sv) (omin omax : Rat) (ov : Option Rat)
+    (ht : TiesEqual (fun p : Tp => p.time) hb.items) (hs : TiesEqual (fun s : Sv => s.time) hv.items) :
+    scrollSpeed hasSv (hb.run (fun p => p.time)) (hv.run (fun s => s.time)) omin omax ov =
+      scrollSpeed hasSv hb.items hv.items omin omax ov :=
+  (scroll_speed_perm hasSv omin omax ov ht hs (hist_perm _ hb).symm (hist_perm _ hv).symm).symm
+
+/-- SV normalisation over histories of the tempo list -/
+theorem sv_normalize_hist (h : Hist Tp) (L : Rat) (ov : Option Rat) (ht : TiesEqual (fun p : Tp => p.time) h.items) :
+    OptSameRows (svNormalize h.items L ov) (svNormalize (h.run (fun p => p.time)) L ov) :=
+  sv_normalize_perm L ov ht (hist_perm _ h).symm
+
+/-- full-LN generation over histories of the hit list and of the hold list -/
+theorem full_ln_hist {α} (sortF sortF' : List FullLN.Row → List FullLN.Row) (hs : FullLN.SortsByOffset sortF)
+    (hs' : FullLN.SortsByOffset sortF') (gap thr : Rat) (hh hl : Hist FullLN.Row) (extras : List FullLN.Row) (others : α)
+    (ht : TiesEqual FullLN.key (FullLN.stacked (⟨extras, hh.items, hl.items, others⟩ : FullLN.MapM α))) :
+    (FullLN.fullLnWith sortF gap thr (⟨extras, hh.items, hl.items, others⟩ : FullLN.MapM α)).hits =
+      (FullLN.fullLnWith sortF' gap thr ⟨extras, hh.run (·.offset), hl.run (·.offset), others⟩).hits ∧
+    (FullLN.fullLnWith sortF gap thr (⟨extras, hh.items, hl.items, others⟩ : FullLN.MapM α)).holds =
+      (FullLN.fullLnWith sortF' gap thr ⟨extras, hh.run (·.offset), hl.run (·.offset), others⟩).holds := by
+  have h := full_ln_perm sortF sortF' hs hs' gap thr (⟨extras, hh.items, hl.items, others⟩ : FullLN.MapM α)
+    ⟨extras, hh.run (·.offset), hl.run (·.offset), others⟩ (hist_perm _ hh).symm (hist_perm _ hl).symm ht
+  exact ⟨h.1, h.2.1⟩
+
+/-- `TimedList.time_diff` over histories: no hypothesis at all -/
+theorem time_diff_hist (h : Hist Tp) (last : Rat) :
+    BpmListOps.timeDiff (h.run (fun p => p.time)) last = BpmListOps.timeDiff h.items last :=
+  time_diff_perm last (hist_perm _ h)
+
+/-- `BpmList.current_bpm` (sort=True) over histories -/
+theorem current_bpm_hist (h : Hist Tp) (t δ : Rat) (ht : TiesEqual (fun p : Tp => p.time) h.items) :
+    BpmListOps.currentBpm (h.run (fun p => p.time)) true t δ = BpmListOps.currentBpm h.items true t δ :=
+  (current_bpm_perm t δ ht (hist_perm _ h).symm).symm
+
+/-- `describe()` of a column over histories of the list -/
+theorem describe_hist {α} (key col : α → Rat) (h : Hist α) :
+    BpmListOps.describeCol ((h.run key).map col) = BpmListOps.describeCol (h.items.map col) :=
+  describe_perm ((hist_perm key h).map col)
+
+/-- the history of the seeded change C15-F: two sections, each sorted, then concatenated - interleaved rows -/
+example : (Hist.concat (.sorted (.construct [(⟨0, 120⟩ : Tp), ⟨20000, 150⟩]) false)
+                       (.sorted (.construct [⟨12000, 90⟩, ⟨5000, 200⟩]) false)).run (fun p => p.time)
+    = [⟨0, 120⟩, ⟨20000, 150⟩, ⟨5000, 200⟩, ⟨12000, 90⟩] := by decide +kernel
+
+end Histories
+
+/-! ## full_ln: the tie hypothesis weakened to the end of each column -/
+
+section FullLNEnd
+open Reamber.FullLN
+
+/-- notes stacked at the END of a column - same column, same time, nothing later in that column - are equal rows.
+(Every other note has its length rewritten from the gap to the next note of its column, so ties elsewhere do not
+matter; the last note of a column keeps its own length.) -/
+def EndTiesEqual (l : List FullLN.Row) : Prop :=
+  ∀ a ∈ l, ∀ b ∈ l, a.column = b.column → a.offset = b.offset →
+    (∀ r ∈ l, r.column = a.column → r.offset ≤ a.offset) → a = b
+
+theorem TiesEqual.endTies {l : List FullLN.Row} (h : TiesEqual key l) : EndTiesEqual l :=
+  fun a ha b hb hc ho _ => h a ha b hb (by simp [key, hc, ho])
+
+theorem EndTiesEqual.perm {l l' : List FullLN.Row} (h : EndTiesEqual l) (hp : l.Perm l') : EndTiesEqual l' :=
+  fun a ha b hb hc ho hm => h a (hp.mem_iff.mpr ha) b (hp.mem_iff.mpr hb) hc ho
+    (fun r hr => hm r (hp.mem_iff.mp hr))
+
+theorem le_getLast_of_sorted : ∀ (l : List FullLN.Row), SortedByOffset l → ∀ x ∈ l, ∀ y, l.getLast? = some y →
+    x.offset ≤ y.offset := by
+  intro l
+  induction l with
+  | nil => intro _ x hx; cases hx
+  | cons a t ih =>
+    intro hs x hx y hy
+    cases t with
+    | nil =>
+      simp only [List.getLast?_singleton, Option.some.injEq] at hy
+      simp only [List.mem_singleton] at hx
+      subst hy; subst hx; exact le_refl _
+    | cons b u =>
+      have hs' := List.pairwise_cons.mp hs
+      rw [List.getLast?_cons_cons] at hy
+      have hymem : y ∈ b :: u := List.mem_of_getLast? hy
+      rcases List.mem_cons.mp hx with rfl | hx'
+      · exact hs'.1 y hymem
+      · exact ih hs'.2 x hx' y hy
+
+/-- the last note of every column of a sorted arrangement is determined by the multiset of rows when the notes
+stacked at the end of a column are equal -/
+theorem inColumn_getLast_eq (c : Int) {arr₁ arr₂ : List FullLN.Row} (hp : arr₁.Perm arr₂) (s₁ : SortedByOffset arr₁)
+    (s₂ : SortedByOffset arr₂) (ht : EndTiesEqual arr₁) : (inColumn c arr₁).getLast? = (inColumn c arr₂).getLast? := by
+  have hpc : (inColumn c arr₁).Perm (inColumn c arr₂) := hp.filter _
+  have sc₁ : SortedByOffset (inColumn c arr₁) := List.Pairwise.filter _ s₁
+  have sc₂ : SortedByOffset (inColumn c arr₂) := List.Pairwise.filter _ s₂
+  cases h1 : (inColumn c arr₁).getLast? with
+  | none =>
+    have : inColumn c arr₁ = [] := List.getLast?_eq_none_iff.mp h1
+    have h2 : inColumn c arr₂ = [] := by rw [this] at hpc; exact hpc.symm.eq_nil
+    rw [h2]; rfl
+  | some a =>
+    cases h2 : (inColumn c arr₂).getLast? with
+    | none =>
+      have : inColumn c arr₂ = [] := List.getLast?_eq_none_iff.mp h2
+      rw [this] at hpc
+      rw [hpc.eq_nil] at h1
+      cases h1
+    | some b =>
+      have ha : a ∈ inColumn c arr₁ := List.mem_of_getLast? h1
+      have hb : b ∈ inColumn c arr₂ := List.mem_of_getLast? h2
+      have hb1 : b ∈ inColumn c arr₁ := hpc.mem_iff.mpr hb
+      have ha2 : a ∈ inColumn c arr₂ := hpc.mem_iff.mp ha
+      have hab : b.offset ≤ a.offset := le_getLast_of_sorted _ sc₁ b hb1 a h1
+      have hba : a.offset ≤ b.offset := le_getLast_of_sorted _ sc₂ a ha2 b h2
+      have hma := List.mem_filter.mp ha
+      have hmb := List.mem_filter.mp hb1
+      have hca : a.column = c := by simpa using hma.2
+      have hcb : b.column = c := by simpa using hmb.2
+      have : a = b := by
+        apply ht a hma.1 b hmb.1 (hca.trans hcb.symm) (le_antisymm hba hab)
+        intro r hr hrc
+        have hrm : r ∈ inColumn c arr₁ := List.mem_filter.mpr ⟨hr, by simp [hrc, hca]⟩
+        exact le_getLast_of_sorted _ sc₁ r hrm a h1
+      rw [this]
+
+/-- **full_ln**, with the tie hypothesis weakened to what the code needs: only notes stacked at the END of a column
+(whose own length survives) have to be equal rows; notes that share (time, column) anywhere else may differ
+(`full_ln_end_tie_example`).  Necessity at the end of a column: `full_ln_tie_counterexample`. -/
+theorem full_ln_perm_endties {α} (sortF sortF' : List FullLN.Row → List FullLN.Row) (hs : SortsByOffset sortF)
+    (hs' : SortsByOffset sortF') (gap thr : Rat) (m m' : MapM α) (hh : m.hits.Perm m'.hits) (hl : m.holds.Perm m'.holds)
+    (ht : EndTiesEqual (stacked m)) :
+    (fullLnWith sortF gap thr m).hits = (fullLnWith sortF' gap thr m').hits ∧
+    (fullLnWith sortF gap thr m).holds = (fullLnWith sortF' gap thr m').holds := by
+  have hp : (sortF (stacked m)).Perm (sortF' (stacked m')) :=
+    ((hs.perm _).trans (stacked_perm hh hl)).trans (hs'.perm _).symm
+  have ht' : EndTiesEqual (sortF (stacked m)) := ht.perm (hs.perm _).symm
+  have hrows : fullLnRows gap thr (sortF (stacked m)) = fullLnRows gap thr (sortF' (stacked m')) :=
+    fullLnRows_eq_of_same_last gap thr _ _ hp (hs.sorted _) (hs'.sorted _)
+      (fun c => inColumn_getLast_eq c hp (hs.sorted _) (hs'.sorted _) ht')
+  exact ⟨by simp only [fullLnWith, hrows], by simp only [fullLnWith, hrows]⟩
+
+/-- non-vacuity and strictness: a hit and a hold on one (time, column) that is NOT the end of the column - outside
+`TiesEqual`, inside `EndTiesEqual` - and the two row orders give the same result -/
+theorem full_ln_end_tie_example :
+    ¬ TiesEqual key ([⟨0, 0, none⟩, ⟨0, 0, some 500⟩, ⟨1000, 0, none⟩] : List FullLN.Row) ∧
+    EndTiesEqual ([⟨0, 0, none⟩, ⟨0, 0, some 500⟩, ⟨1000, 0, none⟩] : List FullLN.Row) ∧
+    fullLnRows 150 100 [⟨0, 0, none⟩, ⟨0, 0, some 500⟩, ⟨1000, 0, none⟩] =
+      fullLnRows 150 100 [⟨0, 0, some 500⟩, ⟨0, 0, none⟩, ⟨1000, 0, none⟩] := by
+  refine ⟨?_, ?_, by decide +kernel⟩
+  · rw [← tiesEqualB_iff]; decide +kernel
+  · intro a ha b hb hc ho hm
+    have h3 := hm ⟨1000, 0, none⟩ (by simp)
+    simp only [List.mem_cons, List.not_mem_nil, or_false] at ha hb
+    rcases ha with rfl | rfl | rfl <;> rcases hb with rfl | rfl | rfl <;> simp_all
+    all_goals (first | rfl | (exfalso; revert h3; decide +kernel))
+
+end FullLNEnd
+
+section SpeedNoSv
+open Reamber.Analysis
+
+/-- **scroll_speed** of a chart without an SV list (StepMania, BMS, O2Jam): no hypothesis on SVs at all - the
+SV arguments are not looked at -/
+theorem scroll_speed_perm_nosv {bpms bpms' : List Tp} (svs svs' : List Sv) (omin omax : Rat) (ov : Option Rat)
+    (ht : TiesEqual (fun p : Tp => p.time) bpms) (hp : bpms.Perm bpms') :
+    scrollSpeed false bpms svs omin omax ov = scrollSpeed false bpms' svs' omin omax ov := by
+  simp only [scrollSpeed, speedFrame, refBpm_perm omax ov ht hp, bpmFrame_perm omin omax ht hp, Bool.false_eq_true, if_false]
+
+end SpeedNoSv
+
+section HistoriesAnySort
+open Reamber.Analysis
+
+/-- the row order a history ends with when `sorted()` is ANY function that returns a permutation of its input
+(`DataFrame.sort_values` with pandas' default, unstable, sort is one: which of several tied rows comes first is
+not determined) -/
+def Hist.runWith {α} (sortF : List α → List α) : Hist α → List α
+  | .construct rows => rows
+  | .appendItem h x => h.runWith sortF ++ [x]
+  | .concat a b => a.runWith sortF ++ b.runWith sortF
+  | .sorted h rev => if rev then (sortF (h.runWith sortF)).reverse else sortF (h.runWith sortF)
+  | .reverseSlice h => (h.runWith sortF).reverse
+  | .rotate h k => (h.runWith sortF).drop k ++ (h.runWith sortF).take k
+  | .maskReappend h m => (h.runWith sortF).filter m ++ (h.runWith sortF).filter (fun a => !m a)
+  | .handOn h => h.runWith sortF
+
+/-- every history ends with a permutation of the rows put in, whatever (permuting) function `sorted()` is -/
+theorem hist_perm_with {α} (sortF : List α → List α) (hs : ∀ l, (sortF l).Perm l) (h : Hist α) :
+    (h.runWith sortF).Perm h.items := by
+  induction h with
+  | construct rows => exact List.Perm.refl _
+  | appendItem h x ih => exact List.Perm.append ih (List.Perm.refl _)
+  | concat a b iha ihb => exact List.Perm.append iha ihb
+  | sorted h rev ih =>
+    simp only [Hist.runWith, Hist.items]
+    split
+    · exact (List.reverse_perm _).trans ((hs _).trans ih)
+    · exact (hs _).trans ih
+  | reverseSlice h ih => exact (List.reverse_perm _).trans ih
+  | rotate h k ih =>
+    simp only [Hist.runWith, Hist.items]
+    exact (List.perm_append_comm.trans (List.take_append_drop k _ ▸ List.Perm.refl _)).trans ih
+  | maskReappend h m ih =>
+    simp only [Hist.runWith, Hist.items]
+    exact (List.filter_append_perm m _).trans ih
+  | handOn h ih => exact ih
+
+/-- dominant bpm over histories with any `sorted()` -/
+theorem dominant_bpm_hist_with (sortF : List Tp → List Tp) (hs : ∀ l, (sortF l).Perm l) (h : Hist Tp) (L : Rat)
+    (ht : TiesEqual (fun p : Tp => p.time) h.items) :
+    dominantBpm (h.runWith sortF) L = dominantBpm h.items L :=
+  (dominant_bpm_perm L ht (hist_perm_with sortF hs h).symm).symm
+
+end HistoriesAnySort
 
 end Reamber.PermInv
